@@ -33,11 +33,50 @@ def builtin_table(interp):
 
 
 _BUILTIN_HOOKS = []
+import z3 as _z3
+
+_Str = _z3.StringSort()
+f_urlunsplit = _z3.Function("urlunsplit", _Str, _Str, _Str, _Str, _Str, _Str)
 
 
 def builtin_hook(f):
     _BUILTIN_HOOKS.append(f)
     return f
+
+
+@register(name="pyvc:Callable")
+class CallableModel:
+    """an abstract callable passed as argument (application, send, receive ...): calls are
+    recorded in the trace named by the object's `record`; it may raise one of `raises`"""
+
+    def m___call__(self, interp, obj, args, kwargs, fr):
+        from .ops import PyRaise
+        from .sym import SObj
+
+        rec = obj.fields.get("record")
+        if rec:
+            entry = tuple(args) if len(args) != 1 else args[0]
+            if "index" in obj.fields:
+                entry = (obj.fields["index"],) + tuple(interp.snap(a, {}) for a in args)
+            interp.traces.setdefault(rec, []).append(entry)
+        raises = obj.fields.get("raises") or []
+        if raises:
+            names = ["normal"] + [r.__name__ for r in raises]
+            k = interp.ctx.choose(len(names), f"call({obj.tag})@{fr.line}", names)
+            if k > 0:
+                if obj.fields.get("yields"):
+                    interp.yield_point(fr, f"callable {obj.tag}")
+                ex = SObj(raises[k - 1], {"args": ()})
+                hook = obj.fields.get("on_raise")
+                if hook:
+                    hook(interp, ex)
+                raise PyRaise(ex, f"{obj.tag} called at {fr.where()}")
+        if obj.fields.get("yields"):
+            interp.yield_point(fr, f"callable {obj.tag}")
+        ret = obj.fields.get("returns")
+        if ret:
+            return interp.make_symbolic(ret, interp.ctx.fresh_name(f"ret_{obj.tag}"))
+        return None
 
 
 def load_all():
@@ -47,3 +86,72 @@ def load_all():
 
 
 load_all()
+
+
+# ------------------------------------------------------------------------------------------------
+@register(name="pyvc:Mounts")
+class MountsModel:
+    """DispatcherMiddleware.mounts: an insertion ordered dict str -> application, of any size.
+    keys: z3 Seq(String); the application mounted at position j is the abstract callable #j."""
+
+    def symbolic(self, interp, name):
+        import z3
+
+        from .sym import SObj, StrSeq
+
+        ks = z3.Const(interp.ctx.fresh_name(name + ".keys"), StrSeq)
+        interp.ctx.inputs[str(ks)] = ks
+        return SObj("pyvc:Mounts", {"keys": ks}, tag=name)
+
+    def m_items(self, interp, obj, args, kwargs, fr):
+        from .sym import SObj
+
+        return SObj("pyvc:MountItems", {"mounts": obj})
+
+    def m___iter__keys(self, interp, obj):
+        from .sym import SymSeq
+
+        return SymSeq(obj.fields["keys"], "str")
+
+    def iter_source(self, interp, obj, fr):  # `for path in self.mounts`
+        from .sym import SymSeq
+
+        return SymSeq(obj.fields["keys"], "str")
+
+    def m_values(self, interp, obj, args, kwargs, fr):
+        raise __import__("pyvc.ctx", fromlist=["Unsupported"]).Unsupported("mounts.values()")
+
+
+class _MountItemsSource:
+    def __init__(self, mounts):
+        self.mounts = mounts
+        self.e = mounts.fields["keys"]  # so that tail_len() sees a sequence
+
+    def elem(self, interp, i, fr):
+        from .sym import SObj, mk_str
+
+        app = SObj("pyvc:Callable", {"record": "mounted_app", "raises": [], "returns": None, "yields": True, "index": i}, tag="mounted_app")
+        interp.loop_index_value = i
+        return (mk_str(self.mounts.fields["keys"][i], "str"), app)
+
+
+@register(name="pyvc:MountItems")
+class MountItemsModel:
+    def iter_source(self, interp, obj, fr):
+        return _MountItemsSource(obj.fields["mounts"])
+
+
+@builtin_hook
+def _url_builtins(interp):
+    import urllib.parse
+
+    from .sym import SymStr, is_sym, mk_str, str_to_z3
+
+    def urlunsplit(a, k, fr):
+        parts = a[0]
+        if not any(is_sym(p) for p in parts):
+            return urllib.parse.urlunsplit(parts)
+        interp.ctx.assumptions_used.add("urllib.parse.urlunsplit is an uninterpreted function of its five components")
+        return mk_str(f_urlunsplit(*[str_to_z3(p) for p in parts]), "str")
+
+    return {urllib.parse.urlunsplit: urlunsplit}
